@@ -1,18 +1,31 @@
 #!/usr/bin/env python3
-"""Render the seeded-defect x check matrix from /verif/seeded/*/meta.json as a markdown table."""
-import json, glob, os
+"""Render the seeded-defect x check matrix from /verif/seeded/*/meta.json as a markdown table.
+render_matrix.py [suffixes]   e.g. `render_matrix.py abcd` (rounds 1-2) or `render_matrix.py ef` (round 3)."""
+import json, glob, os, sys
+want = sys.argv[1] if len(sys.argv) > 1 else None
 rows = []
 for f in sorted(glob.glob("/verif/seeded/*/meta.json")):
     m = json.load(open(f))
     sid = m["seed"]; prop = m["property"]
+    if want and sid[-1] not in want:
+        continue
     caught = sorted(m.get("caught_by", {}).keys())
     tgt = m.get("caught_by", {}).get(prop, {})
     sig = tgt.get("signature", "") if isinstance(tgt, dict) else ""
+    own = "**yes**" if prop in caught else "**NO**"
+    d = m.get("own_check_at_default_budget")
+    if prop not in caught and d and d.get("caught"):
+        own = "**yes** (default budget; not within the matrix's %s runs)" % m.get("matrix_runs_per_check")
+        sig = d.get("detail", {}).get("signature", "")
+    pf = m.get("evaluated_on_pre_fix_tree")
+    if prop not in caught and pf and pf.get("caught"):
+        own = "**yes** on the tree it was made for (before fix f0b15c4)"
+        sig = pf.get("signature", "")
     others = [c for c in caught if c != prop]
     summ = (m.get("summary") or "").replace("\n", " ").replace("|", "/")
     if len(summ) > 170:
         summ = summ[:167] + "..."
-    rows.append("| %s | %s | %s | %s | %s |" % (sid, summ, "**yes**" if prop in caught else "**NO**", ("`%s`" % sig) if sig else "", ", ".join(others)))
+    rows.append("| %s | %s | %s | %s | %s |" % (sid, summ, own, ("`%s`" % sig) if sig else "", ", ".join(others)))
 print("| seed | change (sub-agent's summary) | caught by its own check | signature reported | also reported by |")
 print("|---|---|---|---|---|")
 print("\n".join(rows))
